@@ -3,7 +3,7 @@
 # suite with the patch), then run the named quick checks against it.  Output: /tmp/seedwork/confirm<r>_<P>_<n>.txt, try<r>_<P>_<n>.txt
 r=$1; P=$2; n=$3; shift 3
 d=/tmp/seedwork/out${r}_$P/$n; wt=/tmp/seedwork/cwt${r}_${P}_$n
-git -C /repo worktree add --detach -f $wt $(cat /tmp/seedwork/BASE 2>/dev/null || echo HEAD) >/dev/null 2>&1
+git -C /repo worktree add --detach -f $wt $(cat $d/../BASE 2>/dev/null || cat /tmp/seedwork/BASE 2>/dev/null || echo HEAD) >/dev/null 2>&1
 /verif/tools/confirm_seed.sh $wt $d > /tmp/seedwork/confirm${r}_${P}_$n.txt 2>&1
 git -C /repo worktree remove --force $wt
 : > /tmp/seedwork/try${r}_${P}_$n.txt
